@@ -146,21 +146,38 @@ structure Defaults (α : Type) where
   status : α
   iterations : α
 
+/-- The keyword-only parameter of `ModelInterface.__init__` that a column of the same label is taken for. -/
+def defaultValueParam : String := "default_value"
+
 /-- `initial_values.get(name, default_value)` broadcast to the span and cast:
-    `np.array(col).astype(dtype)` resp. `np.full(len(span), default_value).astype(dtype)`. -/
+    `np.array(col).astype(dtype)` resp. `np.full(len(span), default_value).astype(dtype)`.
+    `kwargs` are the columns as `cls(index, **columns)` receives them: a column labelled `default_value` does not
+    reach `initial_values`, it BINDS THE PARAMETER `default_value` — so it is that column (one cell per period,
+    `np.full` broadcasts it as it is) which fills every variable without a column of its own, the variable called
+    `default_value` included (which therefore still receives its own series). -/
 def initialSeries {α : Type} (cast : α → α) (dflt : α) (n : Nat) (kwargs : List (String × List α)) (k : String) : List α :=
   match dictGet kwargs k with
   | some col => col.map cast
-  | none => List.replicate n (cast dflt)
+  | none =>
+    match dictGet kwargs defaultValueParam with
+    | some col => col.map cast
+    | none => List.replicate n (cast dflt)
+
+/-- A column labelled like a positional parameter of `__init__` (`self`, `span`; reflected): `cls(index, **columns)`
+    raises `TypeError: got multiple values for argument`. -/
+def kwargsClash {α : Type} (cols : List (String × List α)) : Bool :=
+  cols.any (fun c => Fsic.Generated.modelCtorPositional.contains c.1)
 
 /-- `cls.from_dataframe(data)` for a class with `NAMES`, non-strict: `cls(index, **{k: v.values for k, v in
-    data.items()})`.  `none` = the constructor raises `DuplicateNameError` (duplicates in `NAMES`, or a variable
-    called `status` / `iterations`, which `add_variable` has already defined).  Columns that are not in `NAMES`
-    are ignored; variables without a column get the default.  The index becomes the span (`list(index)`; the four
+    data.items()})`.  `none` = the call raises: `DuplicateNameError` (duplicates in `NAMES`, or a variable
+    called `status` / `iterations`, which `add_variable` has already defined) or `TypeError` (`kwargsClash`: a column
+    called `self` / `span`).  Columns that are not in `NAMES` are ignored (columns labelled `engine` / `strict` /
+    `dtype` are outside the model: they would bind those parameters; no model variable can have such a name);
+    variables without a column get the default.  The index becomes the span (`list(index)`; the four
     pandas index classes are passed through as they are — either way the same sequence of labels). -/
 def fromTable {L α : Type} (cast : α → α) (dflt : Defaults α) (NAMES : List String) (t : Table L α) :
     Option (Store L α) :=
-  if NAMES.Nodup ∧ "status" ∉ NAMES ∧ "iterations" ∉ NAMES then
+  if NAMES.Nodup ∧ "status" ∉ NAMES ∧ "iterations" ∉ NAMES ∧ kwargsClash t.cols = false then
     some { span := t.index
            index := "status" :: "iterations" :: NAMES
            names := NAMES
